@@ -271,6 +271,9 @@ def decl_module(d, ops_wanted):
                 conv = "<TT as core::convert::TryFrom<Inner>>::try_from(%s).ok()"
             elif "From" in info.traits:
                 conv = "Some(<TT as core::convert::From<Inner>>::from(%s))"
+            if d.family() == "str" or (d.family() == "int" and inner not in ("u128", "i128")):
+                # the MessagePack bytes themselves, against the model's writer (Sem/MsgPack)
+                arms.append('"ser_mp_bytes" => guard(|| { let x = <Inner as Arg>::parse(arg); match %s { Some(t) => rmp_serde::to_vec(&t).map(|v| { let mut s = String::from("(b"); for b_ in v { s.push_str(" "); s.push_str(&b_.to_string()); } s.push_str(")"); s }).unwrap_or("ser_err".to_string()), None => "rejected".to_string() } }),' % (mko % "x"))
             if d.family() in ("int", "str"):
                 # the JSON text itself, against the model's writer (Sem/Json)
                 arms.append('"ser_text" => guard(|| { let x = <Inner as Arg>::parse(arg); match %s { Some(t) => serde_json::to_string(&t).map(|s| s.show()).unwrap_or("ser_err".to_string()), None => "rejected".to_string() } }),' % (mko % "x"))
